@@ -354,7 +354,10 @@ class Kit:
         if self.mode == "sym":
             c = S._cb(cond)
             if c is S.TRUE:
-                self.run.n_trivial += 1
+                if isinstance(cond, (bool, np.bool_)):
+                    self.run.exec_discharged.append(label)  # decided by executing the path (no arithmetic goal)
+                else:
+                    self.run.n_trivial += 1
                 return
             self._add(label, c, show or S.showb(c, 200))
         else:
